@@ -208,11 +208,41 @@ def dropoff(ctx: Ctx):
                     loop_ok = True
                 if pol is False and d in (f"$elem({req}.passengers).destination == {veh}.geoid", f"{veh}.geoid == $elem({req}.passengers).destination"):
                     loop_ok = True
+    # the same test as one expression: next((p for p in passengers if p.destination != cell), None) / any(p.destination != cell ...)
+    want_neq = {f"_0.destination != {veh}.geoid", f"{veh}.geoid != _0.destination"}
+
+    def existential(a: ast.AST):
+        """-> True if `a` being truthy / not-None means SOME passenger is misplaced (None if `a` is not such an expression)."""
+        a = flow.core(a)
+        if isinstance(a, ast.Call) and isinstance(a.func, ast.Name) and a.func.id in ("next", "any") and a.args:
+            g = flow.canon(a.args[0])
+            if isinstance(g, (ast.GeneratorExp, ast.ListComp)) and len(g.generators) == 1 and flow.dump(g.generators[0].iter) == f"{req}.passengers":
+                conds = [flow.dump(c) for c in g.generators[0].ifs]
+                if a.func.id == "next" and len(a.args) == 2 and flow.is_none(a.args[1]) and any(c in want_neq for c in conds):
+                    return True
+                if a.func.id == "any" and flow.dump(g.elt) in want_neq and not conds:
+                    return True
+        return None
+
+    exist_form = False
+    for p in flow.paths(fn.node):
+        if p.kind == "return" and flow.classify_result(p.value) == "error":
+            for a, pol in p.facts():
+                inner = a.args[0] if flow.is_syn(a, "$isnone") else a
+                e = existential(inner)
+                if e and ((flow.is_syn(a, "$isnone") and pol is False) or (not flow.is_syn(a, "$isnone") and pol is True)):
+                    loop_ok = exist_form = True
     ctx.check(loop_ok, "D5", "GD.dropoff", "drop_off_trip returns an error if any passenger's destination is not the vehicle's cell", fn,
               why_bad="no rejecting branch comparing passenger.destination with vehicle.geoid over request.passengers", construct="drop_off_trip:dest-check")
     for p in ok_paths:
         # a success path that iterated must have seen the comparison false; a success path may not return before the loop
         it = [c for c in p.conds if c.pol in ("iter", "skip") and isinstance(c.raw, ast.For) and flow.dump(c.raw.iter) == f"{req}.passengers"]
+        if not it and exist_form:
+            # the one-expression form: the success path must have seen "no passenger is misplaced"
+            for a, pol in p.facts():
+                inner = a.args[0] if flow.is_syn(a, "$isnone") else a
+                if existential(inner) and ((flow.is_syn(a, "$isnone") and pol is True) or (not flow.is_syn(a, "$isnone") and pol is False)):
+                    it = [a]
         ctx.check(bool(it), "D5", "GD.dropoff", "every success path of drop_off_trip passes the passenger loop", fn, p.end,
                   why_bad=f"success path [{p.cond_text()[:200]}] bypasses the destination check", construct="drop_off_trip:bypass")
 
